@@ -4,6 +4,7 @@ From Coq Require Import List Arith Bool.
 From LokyV Require Import Model.TokenFlow Proofs.TokenFlowInv Proofs.TokenFlowThm.
 From LokyV Require Lib.PoolLib Gen.Pool Model.Pool Proofs.PoolThm.
 From LokyV Require Lib.WorkerLib Gen.Worker Proofs.WorkerThm.
+From LokyV Require Lib.FlowLib Gen.Flow Model.FlowTie Proofs.FlowTieThm Lib.PoolLib Gen.Pool.
 Import ListNotations.
 
 (* a worker's idle time-out is not a step of the token flow: whatever the instants at which time-outs,
@@ -77,3 +78,28 @@ Proof.
   apply WorkerThm.handshake_wait_is_bounded. rewrite G. destruct (WorkerLib.psutil e && WorkerLib.leak e); reflexivity.
 Qed.
 Print Assumptions C07_idle_exit_protocol.
+
+(* ---- the token-flow model follows the source (Model/FlowTie.v) ----
+   Besides trace validation (sampled schedules) the model is tied to the code by the ORDER in which each thread mutates the shared
+   structures.  (1) Every step of TokenFlow.step -- any state, any label -- moves the acting thread's program counter along an edge
+   of a small automaton and leaves the other threads' counters alone.  (2) The cycles of those automata from idle back to idle are
+   exactly the mutation paths of the programs re-read from the source on every run (Gen/Flow.v: add_call_item_to_queue,
+   process_result_item, _on_queue_feeder_error + Queue._feed, the forced-shutdown loop; Gen/Pool.v: submit):
+     manager, dispatch : work id taken; set_running_or_notify_cancel; then running list, queue slot, buffer -- or, cancelled: del pending
+     manager, result   : item popped from the table; future resolved; running list -- or nothing when the item is gone
+     feeder            : buffer pop; send -- or slot given back; item popped; running list; future failed if the item was there
+     forced shutdown   : popitem; future failed                submit : table entry first, id published second *)
+Theorem C07_token_flow_follows_the_source :
+  (forall s l s', step s l = Some s' -> FlowTieThm.conforms s l s') /\
+  FlowTie.same_paths (FlowLib.paths Flow.add_call_item_prog) (FlowTie.starting_with (FlowTie.EK FlowLib.KTakeId) true FlowTie.mgr_cycles) = true /\
+  FlowTie.same_paths (FlowLib.paths Flow.process_result_prog ++ [[]]) (FlowTie.starting_with FlowTie.ERecv false FlowTie.mgr_cycles) = true /\
+  FlowTie.same_paths (FlowLib.paths Flow.feed_send_loop
+                      ++ map (cons FlowLib.KPopBuffer) (FlowLib.paths (FlowLib.inline_hook Flow.feed_error_tail Flow.feeder_error_prog)))
+                     (FlowTie.starting_with (FlowTie.EK FlowLib.KPopBuffer) true FlowTie.fdr_cycles) = true /\
+  FlowTie.same_paths (FlowLib.paths Flow.forced_fail_body) (FlowTie.starting_with (FlowTie.EK FlowLib.KPopItem) true FlowTie.mgr_cycles) = true /\
+  In (FlowTie.submit_publication Pool.submit_prog) FlowTie.usr_cycles.
+Proof.
+  split; [exact FlowTieThm.step_conforms|]. split; [exact FlowTieThm.add_call_item_order|]. split; [exact FlowTieThm.process_result_order|].
+  split; [exact FlowTieThm.feeder_order|]. split; [exact FlowTieThm.forced_fail_order | exact FlowTieThm.submit_order].
+Qed.
+Print Assumptions C07_token_flow_follows_the_source.
